@@ -183,6 +183,10 @@ def builder_pipeline(repo, run, rule):
             bad.append('build() does not fold the preprocessed stages in order (merges: %s)' % [(x[1], x[2]) for x in log if x[0] == 'merge'])
         if getattr(r.ret, 'name', None) != 'M(M(A,B1),B2)':
             bad.append('build() returns %s, expected the merged document' % getattr(r.ret, 'name', r.ret))
+        elif names != ['M(M(A,B1),B2)']:
+            # merging adopts the nodes of later stages into the result in place: the consumed stages must not stay on the builder, or the
+            # next build() merges nodes with themselves (a list that replaced its predecessor ends up on both sides and is emptied)
+            bad.append('after build() the builder holds the stages %s, expected only the merged document: building again (or adding a source and building) re-merges stages whose nodes are already part of the result' % names)
     if bad:
         run.violation(rule, repo.func('Builder.build'), 'Builder.build', '; '.join(bad[:3]))
     else:
